@@ -6,6 +6,7 @@ C10 — round 5c property theorems: what was still outside or partial after roun
 -/
 import GoZero.C10.Props5
 import GoZero.C10.ProofsL
+import GoZero.C10.Spec6
 namespace GoZero.C10.Props6
 open GoZero.C10
 
@@ -211,5 +212,102 @@ theorem ends_clean_with_cancel_wrappers (f : Option Nat → Option Nat) (c : Cfg
 theorem terminates_with_cancel_wrappers (f : Option Nat → Option Nat) (c : Cfg) :
     ∃ μ : St → Nat, ∀ s a s', ReachA (mapCancels f c) s → stepA (mapCancels f c) s a = some s' → μ s' < μ s :=
   terminates_now (mapCancels f c)
+
+/-! ### (d) `cancelError` as the wrapper it is: no wrapper escapes, the caller gets the user's error VALUE itself -/
+
+/-- **identity**: `MapReduceVoid` / `Finish` return the very value that was passed to cancel — for EVERY value `e`
+(the library's sentinels, values that wrap them, even a value that is itself a `cancelError`) — and ErrCancelWithNil
+for nil; whatever `output` delivered. -/
+theorem void_returns_the_very_value (e : GErr) (ok : Bool) (v : Nat) : voidPathW (some e) ok v = some e := by
+  simp [voidPathW, markCancelW, cancelRecordsW, callerOutputW, voidReturnW]
+
+theorem void_nil_cancel (ok : Bool) (v : Nat) : voidPathW none ok v = some (.code (encErr .nilCancel)) := by
+  simp [voidPathW, markCancelW, cancelRecordsW, callerOutputW, voidReturnW, isNoOutputW, isNoOutput, encErr]
+
+/-- `MapReduce` / `MapReduceChan`: no wrapping at all. -/
+theorem mr_returns_the_very_value (e : GErr) (ok : Bool) (v : Nat) : mrPathW (some e) ok v = some e := by
+  simp [mrPathW, cancelRecordsW, callerOutputW]
+
+/-- **no `cancelError` ever escapes**: whatever a public entry point returns — after a user cancel with an unwrapped
+value (users cannot build a `cancelError`: the type is unexported), after cancel(nil), or for an error the library
+reports itself — is not a `cancelError`. -/
+theorem no_cancelError_escapes (e : Option GErr) (he : ∀ x, e = some x → GErr.isMarked x = false) (ok : Bool) (v : Nat)
+    (own : Option Err) :
+    (∀ r, voidPathW e ok v = some r → GErr.isMarked r = false) ∧ (∀ r, mrPathW e ok v = some r → GErr.isMarked r = false) ∧
+    (∀ r, voidOwnW own = some r → GErr.isMarked r = false) := by
+  refine ⟨?_, ?_, ?_⟩
+  · intro r hr
+    cases e with
+    | none => rw [void_nil_cancel] at hr; cases hr; rfl
+    | some x => rw [void_returns_the_very_value] at hr; cases hr; exact he _ rfl
+  · intro r hr
+    cases e with
+    | none => simp [mrPathW, cancelRecordsW, callerOutputW] at hr; subst hr; rfl
+    | some x => rw [mr_returns_the_very_value] at hr; cases hr; exact he _ rfl
+  · intro r hr
+    cases own with
+    | none => simp [voidOwnW, voidReturnW, isNoOutputW] at hr
+    | some x =>
+      simp only [voidOwnW, Option.map, voidReturnW] at hr
+      split at hr <;> simp at hr
+      subst hr; rfl
+
+/-- the library's own reports through `MapReduceVoid`: "no output" becomes nil, everything else is unchanged. -/
+theorem void_own_errors (x : Err) :
+    voidOwnW (some x) = if x = .noOutput ∨ x = .user 111 ∨ x = .user 112 then none else some (.code (encErr x)) := by
+  cases x with
+  | user k =>
+    simp only [voidOwnW, Option.map, voidReturnW, isNoOutputW, isNoOutput, encErr]
+    by_cases h1 : k = 111 <;> by_cases h2 : k = 112 <;> simp_all <;> omega
+  | _ => simp [voidOwnW, voidReturnW, isNoOutputW, isNoOutput, encErr]
+
+/-- the round-5 model (a boolean next to the code) is the projection of this one. -/
+theorem marked_model_projects (k : Nat) (ok : Bool) (v : Nat) :
+    voidPathW (some (.code k)) ok v = (voidCancelPipeline (some k) ok v).map .code := by
+  rw [void_returns_the_very_value, Props5.void_returns_the_cancel_error]; rfl
+
+/-! ### (c) exit kinds of the user functions: return, runtime.Goexit, panic(v), panic(nil) -/
+
+/-- Goexit is a return, panic(nil) is a panic: the goroutine of the library runs the same deferred statements. -/
+theorem goexit_is_return (d : Bool → List String) : goroutineRuns d .goexit = goroutineRuns d .ret := rfl
+theorem panicNil_is_panic (d : Bool → List String) : goroutineRuns d .panicNil = goroutineRuns d .panicVal := rfl
+
+theorem writesOf_withExit (sc : List UAct) (x : UExit) : writesOf (withExit sc x) = writesOf sc := by
+  have h : ∀ l : List UAct, writesOf (l ++ [.panic]) = writesOf l := by
+    intro l
+    induction l with
+    | nil => rfl
+    | cons a t ih => cases a <;> simp [writesOf, ih]
+  cases x <;> simp [withExit, h]
+
+/-- **termination, no deadlock, no leak for every assignment of exit kinds** to the mappers, the reducer and the
+generator (every schedule, every configuration). -/
+theorem ends_clean_for_every_exit_kind (c : Cfg) (mx : Nat → UExit) (rx gx : UExit) (hf : c.fixed = true)
+    (hw : 1 ≤ c.workers) (hr : (writesOf c.rscript).length ≤ 2) (s : St)
+    (h : ReachA (withGenExit (withExits c mx rx) gx) s) :
+    ∃ s', StepsA (withGenExit (withExits c mx rx) gx) s s' ∧
+      (∀ a, stepA (withGenExit (withExits c mx rx) gx) s' a = none) ∧ result s' ≠ none ∧
+      aliveCount (withGenExit (withExits c mx rx) gx) s' = 0 := by
+  have key : ∀ c' : Cfg, c'.fixed = true → 1 ≤ c'.workers → (writesOf c'.rscript).length ≤ 2 → ∀ s, ReachA c' s →
+      ∃ s', StepsA c' s s' ∧ (∀ a, stepA c' s' a = none) ∧ result s' ≠ none ∧ aliveCount c' s' = 0 := by
+    intro c' h1 h2 h3 s hs
+    obtain ⟨s', a1, _, a3, a4, a5⟩ := every_run_ends_clean_now c' h1 h2 h3 s hs
+    exact ⟨s', a1, a3, a4, a5⟩
+  apply key _ _ _ _ s h
+  · cases gx <;> simpa [withGenExit, withExits] using hf
+  · cases gx <;> simpa [withGenExit, withExits] using hw
+  · cases gx <;> simpa [withGenExit, withExits, writesOf_withExit] using hr
+
+/-- **returned error / re-raised panic for every exit kind**: the outcome is in the table of the configuration with
+the exits compiled in; a re-raised panic is one of a function that ends by a panic (or panics in its script). -/
+theorem outcome_for_every_exit_kind (c : Cfg) (mx : Nat → UExit) (rx gx : UExit) (s : St)
+    (h : ReachA (withGenExit (withExits c mx rx) gx) s) (r : Res) (hr : result s = some r) :
+    allowed (withGenExit (withExits c mx rx) gx) r = true :=
+  returns_expected_error _ s (reachA_reach h) r hr
+
+/-- a function that ends by Goexit (or returns) contributes exactly its script: nothing of it is a panic source. -/
+theorem goexit_adds_no_panic (sc : List UAct) : hasPanic (withExit sc .goexit) = hasPanic sc ∧
+    hasPanic (withExit sc .panicNil) = true := by
+  simp [withExit, hasPanic]
 
 end GoZero.C10.Props6
